@@ -26,6 +26,10 @@ const (
 
 	// Maximum message size allowed from peer.
 	maxMessageSizeV2 = 512
+
+	// Events a listener may have queued for its peer beyond the msghub history, which is
+	// replayed in one go when the listener registers.
+	listenerQueueSlackV2 = 100
 )
 
 // options for gorilla connection upgrader
@@ -48,10 +52,13 @@ type msgListenerV2 struct {
 
 // newMsgListenerV2 creates a listener and registers it.  Optional mailbox parameter will restrict
 // messages sent to WebSocket to that mailbox only.
-func newMsgListenerV2(hub *msghub.Hub, mailbox string) *msgListenerV2 {
+func newMsgListenerV2(hub *msghub.Hub, mailbox string, historyLen int) *msgListenerV2 {
+	if historyLen < 0 {
+		historyLen = 0
+	}
 	ml := &msgListenerV2{
 		hub:     hub,
-		c:       make(chan *model.JSONMonitorEventV2, 100),
+		c:       make(chan *model.JSONMonitorEventV2, historyLen+listenerQueueSlackV2),
 		done:    make(chan struct{}),
 		mailbox: mailbox,
 	}
@@ -217,7 +224,7 @@ func MonitorAllMessagesV2(
 	log.Debug().Str("module", "rest").Str("proto", "WebSocket").
 		Str("remote", conn.RemoteAddr().String()).Msg("Upgraded to WebSocket")
 	// Create, register listener; then interact with conn.
-	ml := newMsgListenerV2(ctx.MsgHub, "")
+	ml := newMsgListenerV2(ctx.MsgHub, "", ctx.WebConfig.MonitorHistory)
 	go ml.WSWriter(conn)
 	ml.WSReader(conn)
 	return nil
@@ -244,7 +251,7 @@ func MonitorMailboxMessagesV2(
 	log.Debug().Str("module", "rest").Str("proto", "WebSocket").
 		Str("remote", conn.RemoteAddr().String()).Msg("Upgraded to WebSocket")
 	// Create, register listener; then interact with conn.
-	ml := newMsgListenerV2(ctx.MsgHub, name)
+	ml := newMsgListenerV2(ctx.MsgHub, name, ctx.WebConfig.MonitorHistory)
 	go ml.WSWriter(conn)
 	ml.WSReader(conn)
 	return nil
